@@ -1,10 +1,10 @@
+import TongoModel.GoInt
 /-! Shard identifiers (ton/shards.go, ton/block.go): hand model on `BitVec 64`, mirroring the Go integer code
 (`int64`/`uint64` wrap-around, shifts by ≥ 64 give 0, arithmetic right shift never used here). -/
 namespace Tongo.Shard
 
 /-- number of trailing zero bits, 64 for 0 (math/bits.TrailingZeros64) -/
-def ctz64 (x : BitVec 64) : Nat :=
-  (List.range 64).find? (fun i => x.getLsbD i) |>.getD 64
+def ctz64 (x : BitVec 64) : Nat := Tongo.GoInt.ctz x
 
 /-- `x & (^x + 1)`: lowest set bit -/
 def lowerBit (s : BitVec 64) : BitVec 64 := s &&& (~~~s + 1)
@@ -47,8 +47,14 @@ def matchBlock (s : ShardID) (blockShard : BitVec 64) : Bool :=
     if ctz64 s.mask < ctz64 sub.mask then (s.pfx &&& sub.mask) == sub.pfx
     else (sub.pfx &&& s.mask) == s.pfx
 
-/-- convertShardIdent: `prefix | 1 << (63 - pfxBits)`; pfxBits is a Go `int` field (a count > 63 is negative ⇒ panic) -/
-def convertShardIdent (pfx : BitVec 64) (pfxBits : Nat) : Option (BitVec 64) :=
-  if pfxBits > 63 then none else some (pfx ||| (1#64 <<< (63 - pfxBits)))
+/-- convertShardIdent: `prefix | uint64(1) << (63 - pfxBits)`; pfxBits is a tlb.Uint6, i.e. a Go `uint8`: the count is
+computed in 8-bit unsigned arithmetic (a value > 63 wraps to a count ≥ 192, the shift then gives 0; no panic) -/
+def convertShardIdent (pfx : BitVec 64) (pfxBits : BitVec 8) : BitVec 64 :=
+  pfx ||| (1#64 <<< (63#8 - pfxBits).toNat)
+
+/-- the anycast rewrite of ton.AccountIDFromTlb on the first 4 address bytes (big-endian): keep the low `32 - depth`
+bits, put `rewritePfx << (32 - depth)` on top (32-bit unsigned arithmetic; a shift count ≥ 32 gives 0) -/
+def anycastRewrite (addr4 depth rewritePfx : BitVec 32) : BitVec 32 :=
+  (addr4 &&& ((1#32 <<< (32#32 - depth).toNat) - 1#32)) ||| (rewritePfx <<< (32#32 - depth).toNat)
 
 end Tongo.Shard
